@@ -32,11 +32,45 @@ def run_program(ctx, dn, prog, directed, audit, removal=True, every=1, final=Tru
     G = driver.new_graph(dn, directed, removal)
     m = Model(directed, removal)
     n = 0
+    dangling = []        # iterators started, advanced once and never finished: they stay alive to the end
     for op in prog:
         cell_for(ctx, m, op)
-        ok, rejected = driver.step(ctx, dn, G, m, op)
+        lazy = None
+        r = ctx.rng.random()
+        if m.P and r < 0.04:
+            ids_ = m.ids()
+            it = G.interactions_iter(t=ctx.rng.choice(ids_)) if ids_ else G.interactions_iter()
+            next(it, None)
+            dangling.append(it)
+            ctx.cell("dangling-iterator")
+        elif m.P and r < 0.08 and op[0] in ("add", "addfrom", "path", "star", "cycle"):
+            # a stream requested before the call and read after it
+            before = list(G.stream_interactions())
+            lazy = (G.stream_interactions(), before)
+        if op[0] == "addfrom" and m.removal and len(op[1]) > 1 and op[2] is not None and ctx.rng.random() < 0.4:
+            ok = probed_bulk(ctx, dn, G, m, op)
+            rejected = False
+        else:
+            ok, rejected = driver.step(ctx, dn, G, m, op)
         if not ok:
             return G, m, False
+        if lazy is not None:
+            ctx.cell("stream-requested-before-read-after")
+            try:
+                got = list(lazy[0])
+                now = list(G.stream_interactions())
+                ctx.count("stream:requested-before/read-after")
+                if got != now and got != lazy[1]:
+                    ctx.finding("stream:requested-before/read-after",
+                                "unclassified:stream:requested-before/read-after",
+                                dict(op=op, read=got[:12], at_request=lazy[1][:12], at_read=now[:12]))
+            except Exception as ex:
+                from ..guard import raised_in_library
+                if raised_in_library(ex) or isinstance(ex, (TypeError, RuntimeError, KeyError)):
+                    ctx.finding("stream:requested-before/read-after", "unclassified:stream:requested-before/read-after",
+                                dict(op=op, exception=repr(ex)))
+                else:
+                    raise
         n += 1
         if every and n % every == 0 and not (final and n == len(prog)):
             guarded(ctx, name, audit, ctx, dn, G, m)
@@ -45,6 +79,46 @@ def run_program(ctx, dn, prog, directed, audit, removal=True, every=1, final=Tru
     if m.nontrivial():
         ctx.nontrivial(m.state_key(), prog[-1][0] if prog else None)
     return G, m, True
+
+
+def probed_bulk(ctx, dn, G, m, op):
+    """add_interactions_from fed by a lazy bunch that looks at the graph between two pairs: what it sees must be
+    the state after the pairs handed over so far (snapshot ids, per-snapshot counts, presence of the last pair)"""
+    seen = []
+    pairs = [tuple(x) for x in op[1]]
+
+    def bunch():
+        for i, p in enumerate(pairs):
+            if i:
+                u, v = pairs[i - 1][0], pairs[i - 1][1]
+                seen.append((i, list(G.temporal_snapshots_ids()), dict(G.interactions_per_snapshots()),
+                             G.has_interaction(u, v, op[2])))
+            yield p
+    m2 = m.copy()
+    states = []
+    exp = None
+    for i, p in enumerate(pairs):
+        if i:
+            states.append((list(m2.ids()), {t: m2.count_at(t) for t in m2.ids()},
+                           m2.present(m2.key(pairs[i - 1][0], pairs[i - 1][1]), op[2])))
+        vd = m2.verdict(p[0], p[1], op[2], op[3])
+        if vd:
+            exp = vd
+            break
+        m2.apply(p[0], p[1], op[2], op[3])
+    got = None
+    try:
+        G.add_interactions_from(bunch(), op[2], op[3])
+    except Exception as ex:
+        got = type(ex).__name__
+    ctx.cell("bulk-observed-between-pairs")
+    if not ctx.expect("add_interaction:outcome", got, exp, dict(op=op, form="lazy probing bunch")):
+        return False
+    for (i, ids, counts, pres), (eids, ecounts, epres) in zip(seen, states):
+        ctx.expect("bulk:state-between-pairs", (ids, counts, pres), (eids, ecounts, epres),
+                   dict(op=op, after_pairs=i))
+    driver._adopt(m, m2)
+    return True
 
 
 def exhaustive(ctx, dn, audit, max_len, classes=(False, True), tmax=4, spans=(None, 1, 2, 3), two_pairs_len=0):
